@@ -40,6 +40,7 @@ def run(chk):
     prog = chk.prog
     chk.call(r1_descriptor, chk)
     chk.call(r1_driver_settings, chk)
+    chk.call(r1_xtb_command_values, chk)
     rl = prog.func(f"{RUN}:run_local")
     chk.analysed(rl)
     chk.call(r2_runner, chk, rl)
@@ -205,6 +206,55 @@ def r1_driver_settings(chk):
     chk.decide(bad is None, "C17.R1", key, init.where(stores[0]), "self.executable = the given executable, else the class default",
                (f"with executable={bad[0]!r} and a class default, DriverBase.__init__ stores {bad[1]!r} (`{short(bad[2], 50)}`): "
                 + ("the caller's executable is ignored in favour of the class default" if bad[0] else "the class default is not used when none is given")) if bad else "")
+
+
+def r1_xtb_command_values(chk):
+    """"reflects ... the caller's arguments": in every command line the xtb driver writes, the value after `--uhf` is (multiplicity - 1) both
+    when the caller gives `mult` and when it is taken from the molecule, and the value after `--charge` is the caller's charge when given.
+    Tabulated (precedence slips such as `mult or M.mult - 1` give `mult` itself for an explicit multiplicity)."""
+    from ..truth import Unknown, evaluate
+
+    prog = chk.prog
+    n = 0
+    m_ = prog.module("molli.pipeline.xtb")
+    # (every `def` of the module's source: a prep / post pair shares one name, so the member table only shows the last of them)
+    for fd in [x for x in ast.walk(m_.tree) if isinstance(x, ast.FunctionDef)]:
+        import types as _t
+
+        f = _t.SimpleNamespace(key=f"{m_.relpath}:{fd.name}@{fd.lineno}", node=fd, where=lambda nd=None, fd=fd: f"{m_.relpath}:{getattr(nd, 'lineno', fd.lineno)}")
+        for js in [x for x in ast.walk(fd) if isinstance(x, ast.JoinedStr)]:
+            vals = js.values
+            for i, v in enumerate(vals):
+                if isinstance(v, ast.FormattedValue) and i > 0 and isinstance(vals[i - 1], ast.Constant) and isinstance(vals[i - 1].value, str):
+                    opt = vals[i - 1].value.rstrip().split(" ")[-1] if vals[i - 1].value.rstrip() else ""
+                    if opt not in ("--uhf", "--charge"):
+                        continue
+                    n += 1
+                    bad = None
+                    for given in (3, None):
+                        def lookup(nd, given=given):
+                            t = norm(nd)
+                            if t in ("mult", "charge"):
+                                return given
+                            if isinstance(nd, ast.Attribute) and nd.attr in ("mult", "charge"):
+                                return 5
+                            return NotImplemented
+                        try:
+                            got = evaluate(v.value, lookup)
+                        except Unknown:
+                            got = "?"
+                            break
+                        base = given if given is not None else 5
+                        want = base - 1 if opt == "--uhf" else base
+                        if got != want:
+                            bad = (given, got, want)
+                            break
+                    if got == "?":
+                        continue
+                    chk.decide(bad is None, "C17.R1", f"{m_.relpath}:{fd.name}:{opt}", f.where(v), f"`{opt} {{{norm(v.value)}}}`",
+                               (f"`{opt} {{{norm(v.value)}}}` gives {bad[1]} for " + (f"an explicit value {bad[0]}" if bad[0] is not None else "the molecule's value 5") + f" (expected {bad[2]}): "
+                                "the command does not reflect the caller's argument") if bad else "")
+    chk.require(n >= 4, "xtb driver: --uhf / --charge values not found")
 
 
 def _is_failure_test(t):
